@@ -1,3 +1,5 @@
+import TantivyModel.Proofs.SSTable.StoreGroup
+import TantivyModel.Proofs.SSTable.BitPacker
 import TantivyModel.Proofs.SSTable.BitStream
 import TantivyModel.Proofs.SSTable.Bounds
 import TantivyModel.Proofs.SSTable.WriterBlocks
@@ -758,6 +760,39 @@ theorem C15_extract_bits_field (data : List UInt8) (fs : List (Nat × Nat)) (abo
 
 example : streamNat [0xB5, 0x01] = packNat [(5, 3), (22, 5), (1, 2)] ∧
     extractBits [0xB5, 0x01] (bitPos [(5, 3), (22, 5), (1, 2)] 1) 5 = 22 := by decide
+
+/-- `BitPacker::write`* then `flush` (64-bit mini buffer, values split across buffer boundaries,
+only the used bytes flushed): for every sequence of `(value, width)` fields with `value < 2^width`,
+`width ≤ 64`, the bytes denote exactly the fields packed from bit 0 upwards — so, with
+`C15_extract_bits_field`, `extract_bits` reads every field of a packed store block back -/
+theorem C15_bitpacker (fs : List (Nat × Nat)) (hfit : ∀ f ∈ fs, f.1 < 2 ^ f.2 ∧ f.2 ≤ 64) :
+    streamNat (bitPack fs) = packNat fs ∧
+    ∀ j f, fs[j]? = some f → f.2 ≤ 57 → extractBits (bitPack fs) (bitPos fs j) f.2 = f.1 := by
+  have hv := bitPack_val fs hfit
+  refine ⟨hv, fun j f hj hw => ?_⟩
+  exact C15_extract_bits_field (bitPack fs) fs 0 (by rw [hv]; simp) (fun g hg => (hfit g hg).1) j f hj hw
+
+example : bitPack [(5, 3), (22, 5), (1, 2)] = [0xB5, 0x01] ∧
+    bitPack [(1, 60), (255, 8), (3, 2)] = [1, 0, 0, 0, 0, 0, 0, 240, 63] := by decide
+
+/-- a whole store block of the block-address store, bytes included: the fields
+`BlockAddrStoreWriter::flush_block` computes (start and first-ordinal deviations from the linear
+predictions, shifted by `2^(nbits-1)`, then the final end) bit-packed by `BitPacker`, read by
+`BlockAddrBlockMetadata::deserialize_block_addr` (`extract_bits` at `num_bits * inner_offset`, the
+reader's bounds check, `reference + extracted + slope * i - shift`): block `i` of the store block
+comes back with its first ordinal, its start offset and the start of the next block as its end —
+for every slope and every width that fits the deviations (`C15_addr_codec_roundtrip` shows the
+widths `find_best_slope` picks do) -/
+theorem C15_store_block_get (rs rb os ob : Nat) (ref : BlockAddr) (more : List BlockAddr)
+    (lastStop : Nat) (g : GroupFits rs rb os ob ref more lastStop) (i : Nat) (hi : i ≤ more.length) :
+    (groupMeta rs rb os ob ref more).get (bitPack (groupFields rs rb os ob ref more lastStop)) i
+      = some ⟨((ref :: more).getD i ref).firstOrd, ((ref :: more).getD i ref).start,
+              startAt more lastStop i⟩ :=
+  group_get rs rb os ob ref more lastStop g i hi
+
+example : (groupMeta 100 5 10 3 ⟨7, 1000, 1090⟩ [⟨16, 1090, 1200⟩, ⟨27, 1200, 1310⟩]).get
+      (bitPack (groupFields 100 5 10 3 ⟨7, 1000, 1090⟩ [⟨16, 1090, 1200⟩, ⟨27, 1200, 1310⟩] 1310)) 1
+    = some ⟨16, 1090, 1200⟩ := by decide
 
 /-! ## insertion order (DESIGN §8, F6) -/
 
